@@ -201,6 +201,12 @@ class _Spell(ast.NodeTransformer):
             X, lo, hi = (f.value, n.args[0], n.args[1]) if isinstance(f, ast.Attribute) else (n.args[0], n.args[1], n.args[2])
             inner = ast.Call(func=ast.Name(id="maximum", ctx=ast.Load()), args=[lo, X], keywords=[])
             return ast.copy_location(ast.Call(func=ast.Name(id="minimum", ctx=ast.Load()), args=[hi, inner], keywords=[]), n)
+        # linspace(a, b, num=n) -> linspace(a, b, n)
+        if isinstance(f, ast.Name) and f.id == "linspace" and len(n.args) == 2 and [k_.arg for k_ in n.keywords] == ["num"]:
+            self.k += 1
+            n.args = n.args + [n.keywords[0].value]
+            n.keywords = []
+            return n
         # set(A).isdisjoint(B) -> not any(j in A for j in B)
         if isinstance(f, ast.Attribute) and f.attr == "isdisjoint" and len(n.args) == 1 and not n.keywords and isinstance(f.value, ast.Call) \
                 and isinstance(f.value.func, ast.Name) and f.value.func.id in ("set", "frozenset") and len(f.value.args) == 1:
